@@ -29,6 +29,7 @@ type Req struct {
 	Lo      uint              `json:"lo,omitempty"`
 	Hi      uint              `json:"hi,omitempty"`
 	Dir     string            `json:"dir,omitempty"` // scratch working directory for expansions
+	Width   uint              `json:"width,omitempty"` // selects the indentation width of the space-indenting configurations (see config in cmd/worker)
 }
 
 // JSON cannot carry strings that are not valid UTF-8 (encoding/json replaces
